@@ -54,6 +54,9 @@ func v3Join(ver string, toks []string) string {
 }
 
 func v3EventBody(ver string, v *v3Vec, lvl string, f float64, sev string, direct bool) string {
+	if flagPid == "C06" {
+		return gridBody("v3", lvl, f, sev, false)
+	}
 	t, ex, s := obsScore(f)
 	b := fmt.Sprintf(`"k":"v3","ver":%q,"b":%q,"t":%q,"e":%q,"lvl":%q,"obs":%d,"ex":%t,"str":%q,"sev":%q`,
 		ver, v.codes(0, 8), v.codes(8, 11), v.codes(11, 22), lvl, t, ex, s, sev)
@@ -214,7 +217,9 @@ func cmdV3Temporal(args []string) {
 				// omission patterns of the X-valued temporal metrics: all subsets (thorough)
 				// or the two extremes plus a seeded one (quick)
 				var omits []uint32
-				if quick() {
+				if quick() && flagPid == "C06" {
+					omits = []uint32{xm & uint32(rng.Intn(1<<11))}
+				} else if quick() {
 					omits = []uint32{0, xm}
 					if xm != 0 {
 						omits = append(omits, xm&uint32(rng.Intn(1<<11)))
